@@ -397,6 +397,34 @@ pub fn owned_with_slack(data: &[u8], salt: usize) -> Vec<u8> {
     v
 }
 
+/// Frames in which fields COINCIDE — coincidences that sweeps of one field at a time never produce: every field (address
+/// bytes, type, every data byte, and for one length the length byte too) holding the same value v, for every v (so also
+/// the values of ':', CR, LF, '0', 'F'); and frames whose last data byte is chosen so that the CHECKSUM equals another
+/// field of the same frame (length, type, either address byte, first data byte) or a byte of the wire syntax.
+pub fn coincidence_frames() -> Vec<(u16, u8, Vec<u8>)> {
+    let mut v = vec![];
+    for x in 0..=255u8 {
+        for n in [0usize, 1, 2, 3, usize::from(x), 255] {
+            v.push((u16::from(x) * 0x0101, x, vec![x; n]));
+        }
+        v.push((u16::from(x), x, vec![x]));
+        v.push((u16::from(x) << 8, x, vec![x, x]));
+    }
+    for (addr, ty) in [(0x0003u16, 0x04u8), (0x0010, 0x00), (0xA5C3, 0x7E), (0x3A0D, 0x0A)] {
+        for n in [1usize, 2, 16, 255] {
+            let mut data: Vec<u8> = (0..n).map(|i| (i as u8).wrapping_mul(31).wrapping_add(5)).collect();
+            let first = if n > 1 { data[0] } else { 0x5A };
+            for target in [n as u8, ty, addr as u8, (addr >> 8) as u8, first, 0x3A, 0x0D, 0x0A, 0x00, 0xFF, 0x30, 0x46] {
+                // checksum = -(sum of all other bytes); choose the last data byte so that it equals `target`
+                let s = data[..n - 1].iter().fold((n as u8).wrapping_add((addr >> 8) as u8).wrapping_add(addr as u8).wrapping_add(ty), |a, b| a.wrapping_add(*b));
+                data[n - 1] = target.wrapping_neg().wrapping_sub(s);
+                v.push((addr, ty, data.clone()));
+            }
+        }
+    }
+    v
+}
+
 pub fn from_ref(m: &RefMsg) -> Message<'static> {
     match m {
         RefMsg::Data { offset, data } => Message::SendData(Offset(*offset), Data::try_new(owned_with_slack(data, usize::from(*offset))).expect("<=255")),
